@@ -446,16 +446,28 @@ Proof.
   intros t _ op. reflexivity.
 Qed.
 
-(* what the transport fix buys: once the shipped environment is frozen, every
-   worker compiles the driver's graph, whatever its caches say *)
-Theorem worker_agrees_when_transport_freezes : forall g g' inv mc init st roots,
-  transport_freezes_env = true ->
+(* ---- the code's configuration ---- *)
+(* a frozen transport: every worker compiles the driver's graph, whatever its
+   caches say *)
+Theorem worker_agrees_gen : forall g g' inv mc fixed init st roots,
+  wf_dag g -> (forall i, clean (nop (get_node g i))) -> same_but_cache g g' ->
+  compile_gen fixed g inv mc init empty_env = COk st roots ->
+  compile_gen fixed g' inv mc init (transported_env_gen true empty_env (senv st))
+  = COk (mkSt (sstore st) (snamer st) (smemo st) (freeze (senv st))) roots.
+Proof.
+  intros g g' inv mc fixed init st roots Hwf Hclean Hsame Hc.
+  exact (driver_frozen_agree g g' inv mc fixed init empty_env st roots Hwf Hclean Hsame Hc).
+Qed.
+
+(* the code as it is: the graph a worker compiles from the transported
+   invocation is the driver's graph *)
+Theorem worker_graph_is_driver_graph : forall g g' inv mc init st roots,
   wf_dag g -> (forall i, clean (nop (get_node g i))) -> same_but_cache g g' ->
   compile_top g inv mc init empty_env = COk st roots ->
   compile_top g' inv mc init (transported_env empty_env (senv st))
   = COk (mkSt (sstore st) (snamer st) (smemo st) (freeze (senv st))) roots.
 Proof.
-  intros g g' inv mc init st roots Hfix Hwf Hclean Hsame Hc.
-  unfold transported_env. rewrite Hfix.
-  exact (driver_frozen_agree g g' inv mc result_shuffle_fixed init empty_env st roots Hwf Hclean Hsame Hc).
+  intros g g' inv mc init st roots Hwf Hclean Hsame Hc.
+  unfold transported_env. rewrite code_transport_freezes.
+  exact (worker_agrees_gen g g' inv mc result_shuffle_fixed init st roots Hwf Hclean Hsame Hc).
 Qed.
